@@ -24,6 +24,7 @@ StepLine(e)  ==
   /\ \A i \in 1..Len(e.strokes) :
        LET st == e.strokes[i] IN
        /\ Report(e.case, StrokeObsFails(e.s, e.e, e.pts, st), [s |-> e.s, e |-> e.e, w |-> st[1], n |-> Len(st[2])])
+       /\ (IF st[3] = 1 /\ DOMAIN st[6] # {} THEN Report(e.case, SeqProtoFails(st[2], st[6]), [s |-> e.s, e |-> e.e, w |-> st[1], what |-> "pixels_iterator_protocol"]) ELSE TRUE)
        /\ DriftThick(e, st)
 StepLongLine(e) == e.ev = "longline" /\ Report(e.case, LongLineFails(e), [s |-> e.s, e |-> e.e, np |-> e.np])
 \* a library call of this case panicked: the property promises a result for every input of its domain
